@@ -39,9 +39,10 @@ RULE = ('one case = one trial: a random constraint assignment (acyclic / cyclic 
         'reply class, irc.callbacks names on both networks, probe commands answered through the real dispatcher.  Non-trivial = at least one tag (all trials have some); distinct = distinct trial description.')
 
 PLUGDIR = os.path.join(os.path.dirname(os.path.abspath(__file__)), 'plugins')
-VT = ['VtOrd%d' % i for i in range(8)]
+VT = ['VtOrd%d' % i for i in range(9)]
 # name on disk != registered name: VtOrd6 lives in a directory spelt VTORD6, VtOrd7 in a directory called VtGreeter
-DIR_OF = {'VtOrd6': 'VTORD6', 'VtOrd7': 'VtGreeter'}
+# and VtOrd8 in VtOrd1Extra — a directory whose name extends VtOrd1's, in a plugin directory that is listed first
+DIR_OF = {'VtOrd6': 'VTORD6', 'VtOrd7': 'VtGreeter', 'VtOrd8': 'VtOrd1Extra'}
 CLASS_OF_DIR = dict((DIR_OF.get(v, v).lower(), v) for v in VT)
 BASE = ('Owner', 'Misc', 'User')
 F_RELOAD = 'C20-reload-loses-plugin'
@@ -53,7 +54,7 @@ def get_bot():
         _cfg = types.ModuleType('vt_c20')
         reset_cfg(_cfg)
         sys.modules['vt_c20'] = _cfg
-    b = bot.full(plugins=BASE, plugin_dirs=[PLUGDIR])
+    b = bot.full(plugins=BASE, plugin_dirs=[os.path.join(PLUGDIR, '_c20_first'), PLUGDIR])
     if not getattr(b, 'c20_ready', False):
         bot.register_welcome(b)
         u = b.ircdb.users.newUser(); u.name = 'boss'; u.addCapability('owner'); u.addHostmask('boss!b@h')
@@ -201,7 +202,7 @@ def gen_ops(r, n):
     ops = []
     for _ in range(n):
         x = r.random()
-        tgt = r.choice(VT + ['VtGreeter', 'VtGreeter', 'VTORD6']) if r.random() < 0.85 else r.choice(['Owner', 'owner', 'OWNER', 'User', 'Misc', 'Ghost', 'Owner.py'])
+        tgt = r.choice(VT + ['VtGreeter', 'VtGreeter', 'VTORD6', 'VtOrd1Extra', 'VtOrd1', 'VtOrd1']) if r.random() < 0.85 else r.choice(['Owner', 'owner', 'OWNER', 'User', 'Misc', 'Ghost', 'Owner.py'])
         fault = ''
         y = r.random()
         if y < 0.04: fault = 'die+ctor'
